@@ -74,6 +74,9 @@ pub struct ConnInfo {
 }
 
 pub struct Server {
+    /// (connection index, bytes): reset that connection once this many request bytes were read from it -
+    /// a printer or proxy that drops a connection in the middle of an upload
+    pub abort_uploads: Arc<Mutex<Vec<(usize, usize)>>>,
     pub port: u16,
     pub records: Arc<Mutex<Vec<Recorded>>>,
     pub conns: Arc<Mutex<Vec<ConnInfo>>>,
@@ -98,11 +101,29 @@ struct Counted<S> {
     inner: S,
     info: Arc<Mutex<Vec<ConnInfo>>>,
     idx: usize,
+    aborts: Arc<Mutex<Vec<(usize, usize)>>>,
+    raw: Option<TcpStream>,
 }
 
 impl<S: Read> Read for Counted<S> {
     fn read(&mut self, buf: &mut [u8]) -> std::io::Result<usize> {
-        let n = self.inner.read(buf)?;
+        let limit = self.aborts.lock().unwrap().iter().find(|a| a.0 == self.idx).map(|a| a.1);
+        let got = self.info.lock().unwrap()[self.idx].app_bytes;
+        let want = match limit {
+            Some(l) if got >= l => {
+                // reset the connection in the middle of the upload
+                if let Some(r) = &self.raw {
+                    let l = libc::linger { l_onoff: 1, l_linger: 0 };
+                    unsafe {
+                        libc::setsockopt(r.as_raw_fd(), libc::SOL_SOCKET, libc::SO_LINGER, &l as *const _ as *const libc::c_void, std::mem::size_of::<libc::linger>() as u32);
+                    }
+                }
+                return Err(std::io::Error::new(std::io::ErrorKind::ConnectionAborted, "scripted upload abort"));
+            }
+            Some(l) => buf.len().min(l - got).max(1),
+            None => buf.len(),
+        };
+        let n = self.inner.read(&mut buf[..want])?;
         self.info.lock().unwrap()[self.idx].app_bytes += n;
         Ok(n)
     }
@@ -138,6 +159,8 @@ impl Server {
                 Some(Arc::new(b.build()))
             }
         };
+        let abort_uploads: Arc<Mutex<Vec<(usize, usize)>>> = Arc::new(Mutex::new(Vec::new()));
+        let ab2 = abort_uploads.clone();
         let (r2, c2, a2, s2) = (records.clone(), conns.clone(), accepted.clone(), stop.clone());
         std::thread::spawn(move || {
             for stream in listener.incoming() {
@@ -151,7 +174,7 @@ impl Server {
                     c.len() - 1
                 };
                 a2.fetch_add(1, Ordering::SeqCst);
-                let (handler, records, conns, acceptor) = (handler.clone(), r2.clone(), c2.clone(), acceptor.clone());
+                let (handler, records, conns, acceptor, aborts) = (handler.clone(), r2.clone(), c2.clone(), acceptor.clone(), ab2.clone());
                 std::thread::spawn(move || {
                     let _ = stream.set_nodelay(true);
                     let _ = stream.set_read_timeout(Some(Duration::from_secs(30)));
@@ -159,12 +182,12 @@ impl Server {
                     match acceptor {
                         None => {
                             conns.lock().unwrap()[idx].handshake_ok = true;
-                            serve(Counted { inner: stream, info: conns.clone(), idx }, raw, idx, handler, records);
+                            serve(Counted { inner: stream, info: conns.clone(), idx, aborts: aborts.clone(), raw: raw.as_ref().and_then(|r| r.try_clone().ok()) }, raw, idx, handler, records);
                         }
                         Some(acc) => match acc.accept(stream) {
                             Ok(tls) => {
                                 conns.lock().unwrap()[idx].handshake_ok = true;
-                                serve(Counted { inner: tls, info: conns.clone(), idx }, raw, idx, handler, records);
+                                serve(Counted { inner: tls, info: conns.clone(), idx, aborts: aborts.clone(), raw: raw.as_ref().and_then(|r| r.try_clone().ok()) }, raw, idx, handler, records);
                             }
                             Err(_) => { /* client refused the certificate or spoke garbage: 0 application bytes */ }
                         },
@@ -172,7 +195,7 @@ impl Server {
                 });
             }
         });
-        Ok(Server { port, records, conns, accepted, stop })
+        Ok(Server { abort_uploads, port, records, conns, accepted, stop })
     }
 
     pub fn take_records(&self) -> Vec<Recorded> {
